@@ -6,6 +6,7 @@ import copy
 from xh.spec import Query, B, I, getter
 from xh.g import idx
 from xh.rt import notrace, pick, reclimit
+from xh.spec import B
 from xh import langs, mb
 
 PROP = 'C03'
@@ -45,12 +46,14 @@ def _check_all(lg, spec0, where):
     return ''
 
 
-def _run(cs, hist):
+def _run(cs, hist, rev=False):
     from maltoolbox.language import LanguageGraph, LanguageClassesFactory
     from maltoolbox.attackgraph import AttackGraph
     from xh import stubs
     stubs.install()
     spec0 = langs.L_INH(cs)
+    if rev:
+        spec0['assets'].reverse()          # sub-assets are declared before their super assets
     work = copy.deepcopy(spec0)
     lg = LanguageGraph(work)
     r = _check_all(lg, spec0, 'after construction')
@@ -109,16 +112,54 @@ def body_fold(cube, **kw):
     if not wellformed_cs(cs):
         return ''
     hist = [idx(kw['h%d' % i], len(HOPS)) for i in range(cube['k'])]
+    rev = bool(kw['rev']) if 'rev' in kw else False
     with notrace(), reclimit():
-        return _run(cs, hist)
+        return _run(cs, hist, rev)
+
+
+def body_deep(cube, **kw):
+    """A chain of `depth` levels: level 0 declares `s -> t0`, every level i adds `+> ti` (or nothing / '->' per pick)."""
+    from maltoolbox.language import LanguageGraph
+    L = langs
+    depth = cube['depth']
+    mode = idx(kw['mode'], 3)
+    cut = idx(kw['cut'], depth)
+    with notrace(), reclimit(3000):
+        assets = []
+        for i in range(depth):
+            steps = [L.step('t%d' % i, 'or')]
+            if i == 0:
+                steps.append(L.step('s', 'or', reaches=[L.astep('t0')]))
+            elif mode == 0 or (mode == 1 and i != cut) or (mode == 2 and i % 2 == 0):
+                steps.append(L.step('s', 'or', reaches=[L.astep('t%d' % i)], overrides=(mode == 1 and i == cut)))
+            if mode == 1 and i == cut and i > 0:
+                steps.append(L.step('s', 'or', reaches=[L.astep('t%d' % i)], overrides=True))
+            assets.append(L.asset('T%d' % i, sup=('T%d' % (i - 1) if i else None), steps=steps))
+        spec0 = L.spec(assets, [L.assoc('Z', 'T0', 'za', L.MANY, 'T0', 'zb', L.MANY)], lang_id='verif.deep')
+        lg = LanguageGraph(copy.deepcopy(spec0))
+        for t in ('T%d' % (depth - 1), 'T%d' % (depth // 2), 'T0'):
+            want = langs.ref_fold(spec0, t)
+            got = lg._get_attacks_for_asset_type(t)
+            if sorted(got) != sorted(want):
+                return 'type %s (depth %d) exposes %d steps, fold gives %d' % (t, depth, len(got), len(want))
+            if _norm(got['s']) != _norm(want['s']):
+                return 'step s of %s resolves to %s, fold gives %s' % (
+                    t, [e['name'] for e in got['s']['reaches']['stepExpressions']], [e['name'] for e in want['s']['reaches']['stepExpressions']])
+        if lg._lang_spec != spec0:
+            return 'specification modified'
+    return ''
 
 
 def queries(tier):
     k = 2 if tier == 'quick' else 3
-    ps = [I('c%d' % i, 0, 3) for i in range(4)] + [I('h%d' % i, 0, len(HOPS) - 1) for i in range(k)]
-    wit = [({'k': k}, dict({'c0': 1, 'c1': 3, 'c2': 3, 'c3': 3}, **{'h%d' % i: (5, 2, 4)[i] for i in range(k)})),
-           ({'k': k}, dict({'c0': 2, 'c1': 3, 'c2': 0, 'c3': 2}, **{'h%d' % i: (5, 4, 0)[i] for i in range(k)}))]
-    return [Query(name='fold', body=body_fold, params=ps, cubes=[{'k': k}], split=['c0', 'c1'] if k == 2 else ['c0', 'c1', 'h0'],
+    ps = [I('c%d' % i, 0, 3) for i in range(4)] + [I('h%d' % i, 0, len(HOPS) - 1) for i in range(k)] + [B('rev')]
+    wit = [({'k': k}, dict({'c0': 1, 'c1': 3, 'c2': 3, 'c3': 3}, rev=False, **{'h%d' % i: (5, 2, 4)[i] for i in range(k)})),
+           ({'k': k}, dict({'c0': 2, 'c1': 3, 'c2': 0, 'c3': 2}, rev=True, **{'h%d' % i: (5, 4, 0)[i] for i in range(k)}))]
+    deep = Query(name='deep', body=body_deep, params=[I('mode', 0, 2), I('cut', 0, 13)], cubes=[{'depth': 14}], timeout=300,
+                 witnesses=[({'depth': 14}, {'mode': 0, 'cut': 3})],
+                 bound='inheritance chain of 14 levels: s extended (+>) at every level / overridden (->) at one level (every position) / extended at every second level')
+    return [deep, Query(name='fold', body=body_fold, params=ps, cubes=[{'k': k}], split=['c0', 'c1'] if k == 2 else ['c0', 'c1', 'h0'],
+                  pre=['not rev or (h0 != 5 and h1 != 5)'] if k == 2 else ['not rev or (h0 != 5 and h1 != 5 and h2 != 5)'],
                   timeout=500 if tier == 'quick' else 1700, witnesses=wit,
                   bound='family F_INH: P <- A <- {G1, G2}; every assignment of {absent, no reaches, ->, +>} to step s at each of the 4 levels '
                         '(256 languages, ill-formed +> without inherited definition skipped) x every history of %d operations from %s; '
